@@ -379,11 +379,14 @@ def s6(ctx, R):
     from sa.util import module_resolver
     _mod_resolve = module_resolver(ctx.program, R.cmod)
     n = 0
-    for what, slot, val, extra, (label, expect) in scenarios:
+    # a text: block is written the same way at every nesting depth
+    scenarios = [sc + (0,) for sc in scenarios] + [(sc[0] + " (in a nested block)",) + sc[1:] + (4,) for sc in scenarios
+                                                    if sc[4][0].startswith("text: block")]
+    for what, slot, val, extra, (label, expect), indent in scenarios:
         n += 1
         env = {"self.args_definition": fd.Const([slot]), "self.arguments": fd.Const({"slot": val}),
                "self.extra_arguments": fd.Const({"slot": extra} if extra is not None else {}), "self.accept_children": fd.Const(False),
-               "self.name": fd.Const("cmd"), "indentlevel": fd.Const(0)}
+               "self.name": fd.Const("cmd"), "indentlevel": fd.Const(indent)}
         it = fd.Interp(f.node, R.Command.name, oracle, loop_unroll=max(2, len(expect) + 1 if isinstance(expect, list) else 2), max_depth=2,
                        resolve=_mod_resolve)
         try:
